@@ -14,7 +14,7 @@ import (
 )
 
 // Names is the default name alphabet.
-var Names = []string{"a", "b", "c"}
+var Names = []string{"a", "ab", "b"} // "ab" has "a" as a string prefix: exposes prefix tests that forget the element boundary
 
 // Tree is the view of the reference state the generators draw against.
 type Tree struct {
